@@ -50,6 +50,16 @@ PROPS = {
         "technique": "exhaustive schedule enumeration (completion orders x poll placements) of real threads under a controlled gate + bounded exhaustive payload enumeration against a reference model",
         "assumptions": ["font cell is 8x16 px (default font) for the covering relation", "a poll that takes >500 ms or blocks (case wall watchdog) counts as blocking"],
     },
+    "C16": {
+        "bin": "px_palette", "budget_ms": 20000, "wall_cap": {"quick": 100, "thorough": 2400},
+        "rule": "histories: every sequence of <=3 (thorough 4) operations over 18 insert/set instances (a colour already present, new colours, indices 0, 5, len, len+2) from 3 start palettes (empty, DOS 16, 300 colours with a duplicate), "
+                "oracle after every step; every sequence of <=2 (thorough 3) colour-selecting control functions through the real ANSI parser with a character printed after each (earlier cells must keep their colour); "
+                "files: 5 formats x (n=1: all 343 colours over 7 levels x 6x6 title/description texts x 2 authors x names on/off; n in {0,2,16,17,256,300} x 6 descriptions x names on/off; thorough: all 2^24 colours) ; all 64^3 six-bit colours",
+        "level_text": "all operation histories up to the depth bound and the complete small-scope file menu are executed on the real Palette / parser / exporters / importers and compared with a list-of-RGB reference",
+        "level_note": "'returns its existing index' is read as: an index that already resolved to that RGB before the call; Ase format is not implemented in the engine (todo!) and outside the five named formats",
+        "technique": "bounded exhaustive exploration of operation histories against a reference model + complete small-scope round-trip enumeration",
+        "assumptions": [],
+    },
     "C18": {
         "bin": "px_finite", "max_shards": 4,
         "rule": "complete enumeration of 3x256 attribute bytes, all (fg,bg,blink,bold) tuples expressible in each mode, 4x256 code page codes, 4x63 typed characters; "
@@ -75,6 +85,8 @@ PROPS = {
 HOOK_COMMITS = ["81babd1"]
 
 ENGINES = [
+    {"name": "px_palette", "path": "harness/src/bin/px_palette.rs", "serves_properties": ["C16"],
+     "kind_free_text": "palette history explorer (direct and through the ANSI parser), palette file round trips, 6-bit idempotence"},
     {"name": "px_unicode", "path": "harness/src/bin/px_unicode.rs", "serves_properties": ["C10"],
      "kind_free_text": "value-domain enumerator for character conversions (fill rectangle, clipboard, fonts, hex macros, IcyDraw cells)"},
     {"name": "px_cost", "path": "harness/src/bin/px_cost.rs", "serves_properties": ["C03"],
